@@ -30,3 +30,5 @@ char *strdup(const char *s)
 { size_t n = strlen(s) + 1, i; char *d = (char *)malloc(n); if (!d) return NULL; for (i = 0; i < n; i++) d[i] = s[i]; return d; }
 int getrlimit(int resource, struct rlimit *r) { (void)resource; r->rlim_cur = 1024; r->rlim_max = 1024; return 0; }
 int atexit(void (*f)(void)) { (void)f; return 0; }
+/* environment: no HDF* variables set (HDFEXTDIR / HDFEXTCREATEDIR unset) */
+char *getenv(const char *name) { (void)name; return NULL; }
